@@ -274,8 +274,10 @@ func (e *Explorer) explore(prefix []int, depth int) {
 			if cost > e.Bound {
 				continue
 			}
-			// Sharding: the subtrees hanging off the first execution are dealt round-robin.
-			if depth == 0 && e.NShards > 1 {
+			// Sharding: the SECOND-level subtrees are dealt round-robin (first-level subtrees differ in
+			// size by orders of magnitude; every shard runs the root and the first-level executions
+			// itself, a few hundred duplicates).
+			if depth == 1 && e.NShards > 1 {
 				e.subtree++
 				if int(e.subtree)%e.NShards != e.Shard {
 					continue
